@@ -198,7 +198,7 @@ def headPairOk (t : Table) (S : SLabels) (L : Labels) (s : StateId) (sd : StateD
    | none => false
    | some sd' =>
      sd'.enter.isEmpty && sd'.memchr.isNone && !hasSeq sd'.arms && sd'.arms.all (fun a => a.pat != .closingQuote) &&
-     L.at (S.at s) == some ph &&
+     L.at (S.at s) == some ph && S.at (S.at s) == S.at s &&
      (List.range 256).all fun n =>
        match findArm t c0 (some (UInt8.ofNat n)) sd.arms with
        | none => true
@@ -219,7 +219,8 @@ def relexStateOk (t : Table) (S : SLabels) (L : Labels) (T : TLabels) (i : State
   | none => markStateOk t S T i sd
 
 /-- **`RelexOk`** -/
-def RelexOk (t : Table) (L : Labels) (T : TLabels) (S : SLabels) : Bool := allIdx (relexStateOk t S L T) t.states 0
+def RelexOk (t : Table) (L : Labels) (T : TLabels) (S : SLabels) : Bool :=
+  decide (L.length ≤ t.states.length) && allIdx (relexStateOk t S L T) t.states 0
 
 def relexWitnessFrom (t : Table) (L : Labels) (T : TLabels) (S : SLabels) : List StateDef → StateId → List StateId
   | [], _ => []
